@@ -13,7 +13,9 @@
 //!              k=<dir|missing> (the source path is a directory / does not exist)
 //!   c=<none|gzip:L|zstd:L|xz:L|bzip2:L>  compression(CompressionWithLevel); c=<type>:d  compression(CompressionType::<type>);
 //!     no c= token: no compression() call at all (CompressionWithLevel::default())
-//!   dp=<prov|req|conf|obs|rec|sug|enh|sup>:<name>:<flags>:<version>
+//!   dp=<prov|req|conf|obs|rec|sug|enh|sup>:<name>:<flags>:<version>   dpc=<kind>:<ctor>:<name>:<version> (public constructor by name)
+//!   scs=<kind>:<text> (scriptlet from &str / String)   clt=<name>:<text>:<u32|sys|utc|fix>:<secs>:<nanos>   sdt=<kind>:<secs>:<nanos>
+//!   sgn=bs (build_and_sign) | sgn=b+s (build, then sign); every e= r= d= ve= pk= g= u= vc= ck= bh= c= token is ONE call, in token order
 //!   sc=<prein|postin|preun|postun|pretrans|posttrans|preuntrans|postuntrans|verify>:<script>:<flags|~>:<p1,p2|~|->
 //!   cl=<name>:<text>:<time>
 use crate::common::*;
@@ -143,6 +145,15 @@ pub fn builder_from(tokens: &[&str]) -> Result<rpm::PackageBuilder, rpm::Error> 
         } else if let Some(r) = t.strip_prefix("dp=") {
             let p: Vec<&str> = r.split(':').collect();
             let d = rpm::Dependency { name: hs(p[1]), flags: rpm::DependencyFlags::from_bits_retain(p[2].parse().unwrap()), version: hs(p[3]) };
+            b = match p[0] {
+                "prov" => b.provides(d), "req" => b.requires(d), "conf" => b.conflicts(d), "obs" => b.obsoletes(d),
+                "rec" => b.recommends(d), "sug" => b.suggests(d), "enh" => b.enhances(d), "sup" => b.supplements(d),
+                _ => panic!("bad dep kind"),
+            };
+        } else if let Some(r) = t.strip_prefix("dpc=") {
+            // `dpc=<kind>:<ctor>:<name>:<version>`: a dependency made by one of the public `Dependency` constructors
+            let p: Vec<&str> = r.split(':').collect();
+            let d = crate::c06::make_dep(p[1], &hs(p[2]), &hs(p[3])).expect("unknown Dependency constructor");
             b = match p[0] {
                 "prov" => b.provides(d), "req" => b.requires(d), "conf" => b.conflicts(d), "obs" => b.obsoletes(d),
                 "rec" => b.recommends(d), "sug" => b.suggests(d), "enh" => b.enhances(d), "sup" => b.supplements(d),
